@@ -80,8 +80,15 @@ def run(ctx):
     from .common import hidden_state
     hidden_state(rc, "Q8", ["postprocessing.filter_clusters", "postprocessing.filter_clusters_corners"], "cluster filtering")
     from .c13 import check_short_input
-    check_short_input(rc, "Q2", rc.func("postprocessing.filter_clusters"),
-                      extra_args=lambda e: {"clustering": e.symbol("clustering"), "t": e.symbol("t"), "method": Obj("enum", "ClusterRanking.linear")})
+    def _all_singletons(ev_, args_, part) -> bool:
+        # every cluster has one member (max label + 1 == number of knees): outside hull mode every knee is its cluster's representative
+        kp = Vec([anf.opaque("take", c, args_["knees"], array=True) for c in args_["points"].items], "point")
+        lab = anf.opaque("slot:clustering", ev_.to_rat(kp), ev_.to_rat(args_["t"]), array=True)
+        return g_implies(part, canon_sign(anf.opaque("amax", lab, array=False) + C(1) - sym("K"), OPS["=="]))
+    for mname_, allow_ in (("linear", _all_singletons), ("hull", None)):
+        check_short_input(rc, "Q2" if mname_ != "hull" else "Q4", rc.func("postprocessing.filter_clusters"),
+                          extra_args=lambda e, m_=mname_: {"clustering": e.symbol("clustering"), "t": e.symbol("t"), "method": Obj("enum", f"ClusterRanking.{m_}")},
+                          allow=allow_, label=f"[{mname_}]")
     for mode in MODES:
         _filter_clusters(rc, mode)
     _corners(rc)
@@ -121,6 +128,8 @@ def _filter_clusters(rc: RuleCtx, mode: str):
     if isinstance(lo, Rat) and lo.is_zero() and isinstance(hi, Rat) and hi.equals(anf.opaque("amax", clusters, array=False) + C(1)):
         if mode == "linear":
             res.ok("Q1", "postprocessing.filter_clusters", "clusters 0..max(labels) visited once each, ascending")
+    elif not ra:
+        raise AnalysisError(f"filter_clusters[{mode}]: the clusters are not visited by a loop over range(0, clusters.max() + 1) ({ast.unparse(loop.iter)[:60]}) - shape not recognised")
     else:
         res.violation("Q1", fi.module, fi.name, loop, "the clusters 0..max(labels) are not all visited exactly once", ast.unparse(loop.iter), "range(0, clusters.max() + 1)",
                       construct="cluster range")
